@@ -68,7 +68,7 @@ def driver(variant="asan", extra_cflags=""):
 
 def fault_driver(variant="asan"):
     return tool(build(variant), "yvfault", ["yvdrive.c", "allocwrap.c"],
-                extra=["-Wl,--wrap=malloc,--wrap=calloc,--wrap=realloc,--wrap=strdup,--wrap=strndup"])
+                extra=["-DYV_FAULT", "-rdynamic", "-Wl,--wrap=malloc,--wrap=calloc,--wrap=realloc,--wrap=strdup,--wrap=strndup"])
 
 
 SAN_ENV = {
